@@ -12,6 +12,7 @@ import (
 	"fmt"
 	"sort"
 
+	mocker "github.com/tencent/goom"
 	"github.com/tencent/goom/verifsim/rng"
 	"github.com/tencent/goom/verifsim/simcore"
 	"github.com/tencent/goom/verifsim/simenv"
@@ -66,6 +67,12 @@ func (W) Gen(prop string, seed uint64, tier string) *world.Plan {
 		p.Sched.FaultPermille = map[string]int{"mprotect": []int{20, 60}[r.Intn(2)]}
 		p.Sched.FaultKinds = map[string][]int{"mprotect": {1, 2}}
 		p.Sched.MaxFaults = 1 + r.Intn(2)
+	}
+	if prop == "C11" && r.Chance(150) {
+		if p.Knobs == nil {
+			p.Knobs = map[string]int{}
+		}
+		p.Knobs["logcfg"] = 1 + r.Intn(2)
 	}
 	byAddr := funcsByAddr(prop)
 	// a window of address-adjacent functions so that targets share code pages
@@ -218,6 +225,20 @@ func (W) Exec(p *world.Plan, env *world.Env) {
 		return
 	}
 	img := env.Image
+	if lc := p.Knobs["logcfg"]; lc > 0 {
+		// the logging configuration is fixed before any task starts (toggling it concurrently is
+		// documented as unsupported) and every mock then goes through the debug wrapper
+		if lc == 1 {
+			mocker.OpenDebug()
+		} else {
+			mocker.OpenTrace()
+		}
+		defer func() {
+			mocker.CloseTrace()
+			mocker.CloseDebug()
+		}()
+		env.Probe("concurrent_world_with_logging_on")
+	}
 	// ---- driver: steady mocks (happens-before every task via goroutine creation)
 	steady := hist.NewExec(env, p, p.Tasks[0].Ops)
 	steady.Label = "steady "
